@@ -249,6 +249,42 @@ func (s *SimSigner) Sign(rand io.Reader, digest []byte, opts crypto.SignerOpts) 
 type SimReader struct {
 	data []byte
 	p    *Plane
+	// EOFWithData: a read that ends exactly at the end of the data returns (len, io.EOF) — the other behaviour the
+	// io.ReaderAt contract allows ("may return either err == EOF or err == nil")
+	EOFWithData bool
+}
+
+// SimReadSeeker is the same medium for callers that hold a file: besides positional reads it has a cursor (Read, Seek).
+// The cursor belongs to whoever opened the file, i.e. to the caller; a library that parses the file through ReadAt has no
+// business moving it.
+type SimReadSeeker struct {
+	*SimReader
+	pos int64
+}
+
+func (r *SimReadSeeker) Read(b []byte) (int, error) {
+	n, err := r.SimReader.ReadAt(b, r.pos)
+	r.pos += int64(n)
+	if err == io.EOF && n > 0 {
+		err = nil
+	}
+	return n, err
+}
+
+func (r *SimReadSeeker) Seek(off int64, whence int) (int64, error) {
+	switch whence {
+	case io.SeekStart:
+		r.pos = off
+	case io.SeekCurrent:
+		r.pos += off
+	case io.SeekEnd:
+		r.pos = int64(len(r.data)) + off
+	}
+	if r.pos < 0 {
+		r.pos = 0
+		return 0, errors.New("simreader: negative position")
+	}
+	return r.pos, nil
 }
 
 func (r *SimReader) ReadAt(b []byte, off int64) (int, error) {
@@ -285,6 +321,9 @@ func (r *SimReader) ReadAt(b []byte, off int64) (int, error) {
 	}
 	n := copy(b, r.data[off:])
 	if n < len(b) {
+		return n, io.EOF
+	}
+	if r.EOFWithData && off+int64(n) == int64(len(r.data)) {
 		return n, io.EOF
 	}
 	return n, nil
